@@ -3,6 +3,9 @@
 package odt
 
 import "strconv"
+}
+
+import "encoding/xml"
 
 // Verification hooks (add-only): read access to the parsed element list in
 // document order, which has no exported accessor.
@@ -142,4 +145,37 @@ func VerifNewReader(elems []VerifElem, headerTexts, footerTexts []string, meta V
 	}
 	r.paragraphs = make([]parsedParagraph, nParas)
 	return r
+}
+
+// VerifHeading is the heading part of one Resolve answer.
+type VerifHeading struct {
+	IsHeading bool
+	Level     int
+}
+
+// VerifResolveHeadings builds ONE style resolver for the given content.xml and
+// styles.xml (nil: no styles part) the way Open does, calls Resolve for every
+// style name in order on it and returns the heading part of each answer
+// (verification harness only).
+func VerifResolveHeadings(contentData, stylesData []byte, names []string) []VerifHeading {
+	var docStyles *stylesXML
+	if stylesData != nil {
+		docStyles = &stylesXML{}
+		_ = xml.Unmarshal(stylesData, docStyles)
+	}
+	type contentDoc struct {
+		AutoStyles *contentStylesXML `xml:"automatic-styles"`
+	}
+	var doc contentDoc
+	var contentStyles *contentStylesXML
+	if err := xml.Unmarshal(contentData, &doc); err == nil {
+		contentStyles = doc.AutoStyles
+	}
+	sr := NewStyleResolver(contentStyles, docStyles)
+	out := make([]VerifHeading, 0, len(names))
+	for _, n := range names {
+		rs := sr.Resolve(n)
+		out = append(out, VerifHeading{IsHeading: rs.IsHeading, Level: rs.HeadingLevel})
+	}
+	return out
 }
